@@ -127,7 +127,7 @@ def run_history(hist: List[list]) -> Dict[str, Any]:
     objs: Dict[int, Any] = {}
     wref: Dict[int, Any] = {}
     qs: Dict[int, Any] = {}
-    keep = {op[1] for op in hist if op[0] == "ReEval"}
+    keep = {op[1] for op in hist if op[0] in ("Eval", "ReEval")}
     nq = 0
     nnew = 0
     emap = SymbolicExpression._id_expression_map_
@@ -177,7 +177,15 @@ def run_history(hist: List[list]) -> Dict[str, Any]:
                     qs[nq] = q
                 nq += 1
                 del q
-            elif kind == "ReEval":
+            elif kind == "Declare":
+                # let(T, None) is called and the query object built, nothing is evaluated; the program keeps the query
+                # object only if the history evaluates it later
+                q = an(entity(let(cl[op[1]], None)))
+                if nq in keep:
+                    qs[nq] = q
+                nq += 1
+                del q
+            elif kind in ("Eval", "ReEval"):
                 res = list(qs[op[1]].evaluate())
                 out = [1, number(res)]
                 del res
@@ -399,6 +407,10 @@ def op_term(op: list, ob: List[int]) -> str:
         return f"Relate {op[1]} {op[2]} {op[3]} {ob[0]} {ob[1]}"
     if k in ("Sweep", "Clear"):
         return k
+    if k == "Declare":
+        return f"DeclV {op[1]}"
+    if k in ("Eval", "ReEval"):
+        return f"EvalV {op[1]}"
     return f"{k} {op[1]}"
 
 
@@ -418,27 +430,70 @@ def impl_sx(steps: List[dict]) -> str:
 
 
 def classes_of(hist: List[list]) -> List[str]:
-    """Decidable input classes outside the proved fragment F (mirrors Registry.in_F)."""
+    """Decidable input classes outside the proved fragment F:
+       K_clear  the graph is re-created;
+       K_stale  a query object is evaluated although it was evaluated before (QueryE counts as its first evaluation);
+       K_pin    a first evaluation (QueryE, or Eval of a declared variable) is followed by a Drop."""
     ks = []
     kinds = [o[0] for o in hist]
     if "Clear" in kinds:
         ks.append("K_clear")
-    if "ReEval" in kinds:
+    evaluated = set()
+    nq = 0
+    stale = False
+    first_eval_at = None
+    for n, o in enumerate(hist):
+        if o[0] == "QueryE":
+            evaluated.add(nq)
+            nq += 1
+            first_eval_at = n if first_eval_at is None else first_eval_at
+        elif o[0] == "Declare":
+            nq += 1
+        elif o[0] in ("Eval", "ReEval"):
+            if o[1] in evaluated:
+                stale = True
+            else:
+                evaluated.add(o[1])
+                first_eval_at = n if first_eval_at is None else first_eval_at
+    if stale:
         ks.append("K_stale")
-    if "QueryE" in kinds and "Drop" in kinds[kinds.index("QueryE"):]:
+    if first_eval_at is not None and "Drop" in kinds[first_eval_at:]:
         ks.append("K_pin")
     return ks
 
 
+def well_formed(hist: List[list]) -> bool:
+    """Histories the model covers: no Clear between a Declare and the first evaluation of that variable (the pending
+    generator would stay bound to the dropped graph); Eval refers to an existing query object."""
+    pending = set()
+    nq = 0
+    for o in hist:
+        if o[0] == "QueryE":
+            nq += 1
+        elif o[0] == "Declare":
+            pending.add(nq)
+            nq += 1
+        elif o[0] in ("Eval", "ReEval"):
+            if o[1] >= nq:
+                return False
+            pending.discard(o[1])
+        elif o[0] == "Clear":
+            evaluated_later = {x[1] for x in hist if x[0] in ("Eval", "ReEval")}
+            if pending & evaluated_later:
+                return False
+    return True
+
+
 # ------------------------------------------------------------------------------------------------ generation
 PROFILES = {
-    # name: (weights New Drop Sweep QueryG QueryE ReEval Relate Clear)
-    "F": (30, 18, 8, 14, 0, 0, 22, 0),
-    "Fq": (30, 16, 6, 10, 8, 0, 18, 0),   # QueryE but generated so that nothing seen is dropped afterwards? no: see gen
-    "all": (28, 16, 7, 10, 7, 4, 18, 3),
-    "churn": (30, 28, 10, 8, 0, 0, 24, 0),
+    # name: (weights New Drop Sweep QueryG QueryE Declare Eval Relate Clear)
+    "F": (30, 18, 8, 14, 0, 0, 0, 22, 0),
+    "Fq": (30, 16, 6, 10, 6, 6, 8, 18, 0),    # EQL queries, but nothing is dropped once a query has been evaluated
+    "decl": (28, 16, 8, 6, 0, 12, 14, 14, 0),  # variables declared, the world changes, evaluated later
+    "all": (28, 16, 7, 9, 6, 5, 7, 18, 3),
+    "churn": (30, 28, 10, 8, 0, 0, 0, 24, 0),
 }
-OPS = ["New", "Drop", "Sweep", "QueryG", "QueryE", "ReEval", "Relate", "Clear"]
+OPS = ["New", "Drop", "Sweep", "QueryG", "QueryE", "Declare", "Eval", "Relate", "Clear"]
 
 
 def gen_history(rng: core.Rng, profile: str, nmin=4, nmax=16) -> List[list]:
@@ -448,6 +503,7 @@ def gen_history(rng: core.Rng, profile: str, nmin=4, nmax=16) -> List[list]:
     user: List[int] = []
     nnew = 0
     nq = 0
+    pending: List[int] = []
     hist: List[list] = []
     seen_e = False
     clss = [0, 1, 2, 3, 4, 5, 6, 7, 3, 5, 0]
@@ -468,15 +524,31 @@ def gen_history(rng: core.Rng, profile: str, nmin=4, nmax=16) -> List[list]:
             if k == "QueryE":
                 nq += 1
                 seen_e = True
-        elif k == "ReEval":
+        elif k == "Declare":
+            hist.append(["Declare", rng.choice(QUERY_TYPES)])
+            pending.append(nq)
+            nq += 1
+        elif k == "Eval":
             if nq == 0:
                 continue
-            hist.append(["ReEval", rng.next() % nq])
+            # mostly the first evaluation of a declared variable; sometimes any query object again
+            if pending and (profile in ("Fq", "decl") or rng.chance(0.7)):
+                v = pending.pop(rng.next() % len(pending))
+            else:
+                if profile in ("Fq", "decl"):
+                    continue
+                v = rng.next() % nq
+                if v in pending:
+                    pending.remove(v)
+            hist.append(["Eval", v])
+            seen_e = True
         elif k == "Relate":
             if not user:
                 continue
             hist.append(["Relate", rng.choice(user), rng.next() % 2, rng.choice(user)])
         elif k == "Clear":
+            if pending:
+                continue  # a pending generator is bound to the graph of its declaration (outside the model)
             hist.append(["Clear"])
     return hist
 
@@ -485,22 +557,26 @@ def exhaustive(depth: int) -> List[List[list]]:
     """All valid histories up to `depth` over a tiny alphabet (classes A and D, queries on A and C, one field)."""
     out: List[List[list]] = []
 
-    def rec(h, user, nnew):
+    def rec(h, user, nnew, pend=(), nq=0):
         if h:
             out.append(list(h))
         if len(h) == depth:
             return
         for c in (0, 3):
-            rec(h + [["New", c]], user + [nnew], nnew + 1)
+            rec(h + [["New", c]], user + [nnew], nnew + 1, pend, nq)
         for o in user:
-            rec(h + [["Drop", o]], [u for u in user if u != o], nnew)
+            rec(h + [["Drop", o]], [u for u in user if u != o], nnew, pend, nq)
+        if nq == 0 and len(h) <= depth - 3:
+            rec(h + [["Declare", 0]], user, nnew, (0,), 1)   # one variable, declared early enough to matter
+        for v in pend:
+            rec(h + [["Eval", v]], user, nnew, (), nq)
         if nnew:
-            rec(h + [["Sweep"]], user, nnew)
+            rec(h + [["Sweep"]], user, nnew, pend, nq)
             for t in (0, 2):
-                rec(h + [["QueryG", t]], user, nnew)
+                rec(h + [["QueryG", t]], user, nnew, pend, nq)
             for a in user:
                 for b in user:
-                    rec(h + [["Relate", a, 0, b]], user, nnew)
+                    rec(h + [["Relate", a, 0, b]], user, nnew, pend, nq)
     rec([], [], 0)
     # every prefix's observations are part of the trace of its extensions
     return [h for h in out if len(h) == depth]
@@ -655,6 +731,8 @@ ASSUME = [
     "id() of simultaneously existing objects differ",
     "rustworkx: add_node returns an index not currently in use; remove_node drops the incident edges",
     "a query result is consumed completely (list(q.evaluate())) before the next operation",
+    "no SymbolGraph().clear() between let(T, None) and the first evaluation of that variable (the pending generator stays "
+    "bound to the dropped graph; such histories are not generated and are inadmissible in the model)",
 ]
 
 
@@ -704,7 +782,8 @@ def run(tier: str, seed: int, replay=None) -> int:
     rep.assume = ASSUME
     rep.rule = ("corpus + all valid histories of length 4 (quick) / 5 (thorough) over {New A, New D, Drop, Sweep, QueryG A/C, Relate} "
                 "+ seeded random histories (4..16 ops quick, 4..28 thorough) over 8 classes (tree + diamond + value-equal class) "
-                "in profiles F / churn (no Clear, no EQL query) and all (Clear, QueryE, ReEval); non-trivial = >= 4 ops of >= 3 kinds; "
+                "in profiles F / churn (no Clear, no EQL query), Fq / decl (variables declared by let(T, None), the world changed by New / Drop / "
+                "Sweep / Relate, evaluated later; fused QueryE) and all (Clear, QueryE, Declare, Eval incl. re-evaluation); non-trivial = >= 4 ops of >= 3 kinds; "
                 "distinct = distinct history")
     ok_spec, log = core.coq_make(["Base/Sx.vo", "Onto/RegistrySpec.vo", "Onto/RegistrySpecRun.vo"])
     rep.oblige("build:spec", ok_spec, "" if ok_spec else core.first_error(log))
@@ -713,7 +792,7 @@ def run(tier: str, seed: int, replay=None) -> int:
         hists = [replay["case"]]
     else:
         n = 1 if tier == "quick" else 12
-        hists = corpus_cases(PROP) + gen_cases(tier, seed, [("F", 500 * n), ("churn", 300 * n), ("Fq", 100 * n), ("all", 500 * n)],
+        hists = corpus_cases(PROP) + gen_cases(tier, seed, [("F", 400 * n), ("churn", 250 * n), ("Fq", 150 * n), ("decl", 300 * n), ("all", 400 * n)],
                                                4 if tier == "quick" else 5)
     if not model_ok:
         rep.note("model not available; comparing the implementation with the Spec only (search for a failing input)")
